@@ -90,38 +90,74 @@ def campaign_bounds(ck: Check, n: int) -> None:
     camp.wall_s = time.time() - t0
 
 
+BODIES = {
+    "typed": [{"type": "object", "properties": {"x": {"type": "integer"}}}, {"type": "string"}, {"type": "array", "items": {}}, {"properties": {}},
+              {"additionalProperties": False}, {"type": "object"}],
+    "empty": [{}],
+    "keywords": [{"description": "d"}, {"title": "T"}, {"nullable": True}, {"x-note": 1}, {"example": {}}, {"deprecated": True}],
+    "notmapping": [True, False, None],
+}
+
+
 def campaign_containers(ck: Check, n: int) -> None:
-    camp = ck.campaign("Bounds.pickContainer vs JsonSchemaParser (which unreferenced named schemas become classes)")
+    camp = ck.campaign("Bounds.pickContainer + Bounds.walkNamed vs JsonSchemaParser / OpenAPIParser (which named schemas of definitions / $defs / "
+                       "components.schemas become top-level definitions, for bodies that are empty, annotation-only, typed, or not a mapping)")
     t0 = time.time()
     rng = ck.rng.fork("containers")
     names_pool = ["Aa", "Bb", "Cc", "Dd", "Ee"]
     cases = []
-    for _ in range(n):
+    for i in range(n):
         pool = rng.shuffle(names_pool)
-        doc: dict[str, Any] = {"$schema": "http://json-schema.org/draft-07/schema#"}
+
+        def body() -> tuple[str, Any]:
+            kind = rng.choice(["typed", "typed", "empty", "empty", "keywords", "keywords", "notmapping"] if rng.chance(1, 6) else ["typed", "typed", "empty", "keywords"])
+            return kind, rng.choice(BODIES[kind])
+
+        if i % 3 == 2:  # OpenAPI: the one container of OpenAPIParser.SCHEMA_PATHS
+            entries = [(pool.pop(), *body()) for _ in range(rng.range(1, 4))]
+            if rng.chance(1, 3) and len(entries) > 1 and entries[0][1] != "notmapping":   # one of them referenced by a typed one
+                entries.append(("Ref", "typed", {"type": "object", "properties": {"r": {"$ref": "#/components/schemas/" + entries[0][0]}}}))
+            doc: dict[str, Any] = {"openapi": "3.0.0", "info": {"title": "t", "version": "1"}, "paths": {}, "components": {"schemas": {nm: b for nm, _, b in entries}}}
+            cases.append((doc, "openapi", [("components.schemas", entries)]))
+            continue
+        doc = {"$schema": "http://json-schema.org/draft-07/schema#"}
         conts = []
         for key in rng.shuffle(["definitions", "$defs"]):
             c = rng.below(4)
             if c == 0:
                 continue  # key absent
-            names = [] if c == 1 else [pool.pop() for _ in range(rng.range(1, 2))]
-            doc[key] = {nm: {"type": "object", "properties": {"x": {"type": "integer"}}} for nm in names}
-            conts.append((key, names))
-        cases.append((doc, conts))
-    reqs = ["defs.pick " + " ".join("(" + " ".join([hx(k)] + [hx(nm) for nm in names]) + ")" for k, names in conts) for _, conts in cases]
-    replies = ck.driver.run(reqs)
-    for (doc, conts), rep in zip(cases, replies):
+            entries = [] if c == 1 else [(pool.pop(), *body()) for _ in range(rng.range(1, 2))]
+            doc[key] = {nm: b for nm, _, b in entries}
+            conts.append((key, entries))
+        cases.append((doc, "jsonschema", conts))
+    picks = ["defs.pick " + " ".join("(" + " ".join([hx(k)] + [hx(nm) for nm, _, _ in es]) + ")" for k, es in conts)
+             for _, t, conts in cases if t == "jsonschema"]
+    pick_replies = iter(ck.driver.run(picks))
+    walked: list[list[tuple[str, str, Any]]] = []
+    for doc, t, conts in cases:
+        if t == "openapi":
+            walked.append(conts[0][1])
+            continue
+        rep = next(pick_replies)
+        names = [unhx(x) for x in rep.split(" ")[1:] if x] if rep.startswith("ok") else None
+        by_name = {nm: (nm, kd, b) for _, es in conts for nm, kd, b in es}
+        walked.append([by_name[nm] for nm in names] if names is not None else [("?", "notmapping", None)])
+    replies = ck.driver.run(["defs.walk " + " ".join(f"({hx(nm)} {kd})" for nm, kd, _ in es) for es in walked])
+    for (doc, t, conts), rep in zip(cases, replies):
         camp.evaluations += 1
         model = sorted(unhx(x) for x in rep.split(" ")[1:] if x) if rep.startswith("ok") else rep
-        res = e2e.run_generate(doc)
-        impl = sorted(c for c in class_map(res.code) if c != "Model") if res.ok else f"{res.error_type}: {res.error_msg}"
-        shape = "+".join(f"{k}:{'empty' if not ns else 'filled'}" for k, ns in sorted(conts)) or "none"
+        res = run_gen(json.dumps(doc), t)
+        impl = sorted(c for c in class_map(res.code) if c != "Model") if res.ok else "error"
+        shape = t + ":" + ("+".join(f"{k}:{'empty' if not es else 'filled'}" for k, es in sorted(conts)) or "none")
         camp.hit(shape)
+        for _, es in conts:
+            for _, kd, _ in es:
+                camp.hit(f"body:{kd}:{t}")
         camp.distinct.add(json.dumps(doc, sort_keys=True))
         if model != impl:
-            ck.disagree(camp, doc, model, impl)
-        elif len(camp.samples) < 2 and len(conts) == 2 and all(ns for _, ns in conts):
-            camp.samples.append({"document": doc, "classes": impl})
+            ck.disagree(camp, doc, model, impl if res.ok else f"{res.error_type}: {res.error_msg}")
+        elif len(camp.samples) < 2 and any(kd == "empty" for _, es in conts for _, kd, _ in es) and res.ok:
+            camp.samples.append({"document": doc, "definitions": impl})
     camp.wall_s = time.time() - t0
 
 
@@ -187,8 +223,10 @@ def yaml_text(doc) -> str:
 
 
 def reref(v, prefix: str):
+    """`#/definitions/<name>[/<deeper pointer>]` → `<prefix><name>[/<deeper pointer>]`; other pointers (`#/properties/…`) stay"""
     if isinstance(v, dict):
-        return {k: (prefix + x.rsplit("/", 1)[-1] if k == "$ref" and isinstance(x, str) else reref(x, prefix)) for k, x in v.items()}
+        return {k: (prefix + x[len("#/definitions/"):] if k == "$ref" and isinstance(x, str) and x.startswith("#/definitions/") else reref(x, prefix))
+                for k, x in v.items()}
     if isinstance(v, list):
         return [reref(x, prefix) for x in v]
     return v
@@ -306,8 +344,13 @@ def gen_defs(rng: Rng) -> dict[str, dict]:
 
     defs: dict[str, dict] = {}
     for nm in names:
-        c = rng.below(6)
-        if c == 0:
+        c = rng.below(8)
+        if c >= 6:
+            # minimal bodies: the empty ("accept anything") schema, annotation-only schemas, a bare type — referenced by
+            # another schema or (mostly) by nothing at all
+            defs[nm] = rng.choice([{}, {}, {"description": yamlish() or "d"}, {"type": "object"}, {"title": "T " + nm}, {"type": "string"},
+                                   {"nullable": True}, {"type": "array", "items": {}}, {"properties": {}}, {"additionalProperties": False}])
+        elif c == 0:
             defs[nm] = {"type": "string", "enum": sorted({yamlish() for _ in range(rng.range(1, 4))} - {""}) or ["x"]}
         elif c == 1:
             defs[nm] = prop_schema(1)
@@ -325,6 +368,16 @@ def gen_defs(rng: Rng) -> dict[str, dict]:
             if rng.chance(1, 5):
                 obj["description"] = yamlish()
             defs[nm] = obj
+    # JSON pointers that go deeper than a named schema: `#/definitions/<X>/properties/<y>` (parsed lazily, in a second phase)
+    objs = [nm for nm in names if isinstance(defs[nm].get("properties"), dict) and defs[nm]["properties"]]
+    if objs and rng.chance(1, 3):
+        for _ in range(rng.range(1, 2)):
+            src = rng.choice(objs)
+            key = rng.choice(sorted(defs[src]["properties"]))
+            if "/" in key or "~" in key or "$ref" in defs[src]["properties"][key]:
+                continue
+            holder = rng.choice(objs)
+            defs[holder]["properties"]["via_" + rng.choice(PLAIN_NAMES)] = {"$ref": f"#/definitions/{src}/properties/{key}"}
     return defs
 
 
@@ -333,6 +386,10 @@ def wrap_jsonschema(defs: dict, container: str, with_root: bool) -> dict:
     if with_root:
         first = next(iter(defs))
         doc.update({"type": "object", "properties": {"root_ref": {"$ref": f"#/{container}/{first}"}}})
+    if with_root == 2:  # pointers to siblings of the root schema's own properties
+        doc["properties"]["billing"] = {"type": "object", "properties": {"street": {"type": "string"}, "zip": {"type": "string"}}, "required": ["street"]}
+        doc["properties"]["shipping"] = {"$ref": "#/properties/billing"}
+        doc["properties"]["street_again"] = {"$ref": "#/properties/billing/properties/street"}
     doc[container] = reref(defs, f"#/{container}/")
     return doc
 
@@ -439,10 +496,11 @@ def run_pair(pair: str, defs: dict, with_root: bool, variant: int) -> tuple[str,
     if pair == "str_vs_path":
         d = tempfile.mkdtemp(dir=e2e.scratch_root())
         p = Path(d) / ("schema.json" if variant % 2 == 0 else "schema.yaml")
-        text = json.dumps(base_doc, ensure_ascii=False) if variant % 2 == 0 else yaml_text(base_doc)
+        the_doc, ift = (wrap_openapi(defs), "openapi") if variant % 4 >= 2 else (base_doc, "jsonschema")
+        text = json.dumps(the_doc, ensure_ascii=False) if variant % 2 == 0 else yaml_text(the_doc)
         p.write_text(text, encoding="utf-8")
         try:
-            return compare(run_gen(text, "jsonschema"), run_gen(p, "jsonschema"), set())
+            return compare(run_gen(text, ift), run_gen(p, ift), set())
         finally:
             shutil.rmtree(d, ignore_errors=True)
     if pair == "auto_vs_explicit":
@@ -564,6 +622,8 @@ def campaign_e2e(ck: Check, n: int) -> None:
     for i in range(n):
         defs = gen_defs(rng)
         with_root = rng.chance(1, 2)
+        if with_root and rng.chance(1, 3):
+            with_root = 2   # the root schema refers to its own properties by JSON pointer
         camp.distinct.add(json.dumps(defs, sort_keys=True))
         for pair in PAIRS:
             # the auto-detection pair walks through all of its 2 × 6 × 2 forms in turn
@@ -572,6 +632,12 @@ def campaign_e2e(ck: Check, n: int) -> None:
 
 
 CORPUS = [
+    # JSON pointers deeper than a named schema, and into the root schema's own properties: str vs Path, both input types
+    *[("str_vs_path", {"A": {"type": "object", "properties": {"contact": {"type": "object", "properties": {"email": {"type": "string"}}}}},
+                       "B": {"type": "object", "properties": {"via": {"$ref": "#/definitions/A/properties/contact"}}}}, 2, v) for v in range(4)],
+    # the empty ("accept anything") schema that nothing refers to, beside one that is referred to
+    *[(pr, {"Pet": {"type": "object", "properties": {"meta": {"$ref": "#/definitions/Metadata"}}}, "Metadata": {}, "AnyValue": {}}, False, 0)
+      for pr in ("definitions_vs_openapi", "definitions_vs_defs", "json_vs_yaml")],
     ("draft4_vs_draft6", {"A": {"type": "object", "properties": {"x": {"type": "integer", "exclusiveMinimum": 0}, "y": {"type": "number", "exclusiveMaximum": 0.0},
                                                                  "z": {"type": "number", "exclusiveMinimum": -0.0, "exclusiveMaximum": 5}, "w": {"type": "integer", "minimum": 0}}}}, True, 0),
     ("draft4_vs_draft6", {"A": {"type": "object", "properties": {"x": {"type": "integer", "exclusiveMinimum": 0, "maximum": 0}}}}, False, 1),
@@ -662,7 +728,7 @@ def run(ck: Check) -> None:
         "compared per top-level definition: ast.dump of the ClassDef (name, bases, members, annotations, defaults, docstrings); output model type pydantic v2, formatters off",
     ]
     guard.campaign(ck, campaign_bounds, 400 if quick else 4000)
-    guard.campaign(ck, campaign_containers, 40 if quick else 300)
+    guard.campaign(ck, campaign_containers, 90 if quick else 600)
     guard.campaign(ck, campaign_e2e, 60 if quick else 600)
     guard.campaign(ck, campaign_both_containers)
     ck.search_hooks.append(search)
